@@ -93,9 +93,30 @@ BoolExprs(tier) ==
     \cup {Un("not", Bin(op, c1, c2)) : op \in LogOps, c1 \in CondA(tier), c2 \in CondB(tier)}
     \cup {Bin(op, Un("not", c1), c2) : op \in LogOps, c1 \in CondA(tier), c2 \in CondB(tier)}
 
+(* guarded expressions: one branch has no value (division by zero, log / sqrt outside the domain - uninterpreted,
+   so Und) exactly at the points where the guard does not select it; the meaning of the if-expression is the
+   SELECTED branch only.  d takes positive, zero and negative values over the 4 points.                      *)
+GuardDens == {Bin("+", Ref("x"), ILit(1)), Ref("k"), Ref("y"), Bin("-", Ref("p"), ILit(2))}
+GuardAlts == {ILit(0), Un("-", ILit(1)), Ref("c")}
+GuardedExprs(tier) ==
+    UNION {
+      {If(Bin(">", Call("abs", <<d>>), ILit(0)), Bin("/", Ref("u"), d), alt),            \* if abs(d) > 0 then u/d else alt
+       If(Bin("==", d, ILit(0)), alt, Bin("/", Ref("u"), d)),                             \* guarded branch in the else position
+       If(Bin(">", d, ILit(0)), Call("log", <<d>>), alt),                                 \* log only where d > 0
+       If(Bin("<=", d, ILit(0)), alt, Call("log", <<d>>)),
+       If(Bin(">=", d, ILit(0)), Call("sqrt", <<d>>), alt),
+       If(Bin(">", d, ILit(0)), Bin("/", ILit(1), Call("sqrt", <<d>>)), alt),
+       IfE(<<Bin(">", d, ILit(0)), Bin("/", Ref("u"), d), Bin("<", d, ILit(0)), Bin("/", Ref("c"), d), alt>>),   \* elseif chain
+       Bin("+", Ref("c"), Bin("*", ILit(2), If(Bin(">", Call("abs", <<d>>), ILit(0)), Bin("/", Ref("u"), d), alt)))}   \* inside a larger expression
+      : d \in GuardDens, alt \in (IF tier = "quick" THEN {ILit(0), Ref("c")} ELSE GuardAlts)}
+
 ExprItems(tier) ==
     {Item("expr", Prog(ExprComps, <<Eq(Ref("r"), e)>>, <<>>, <<>>), {"num"}) : e \in NumExprs(tier)}
     \cup {Item("expr", Prog(ExprComps, <<Eq(Ref("rb"), e)>>, <<>>, <<>>), {"bool"}) : e \in BoolExprs(tier)}
+    \cup {Item("expr", Prog(ExprComps, <<Eq(Ref("r"), e)>>, <<>>, <<>>), {"num", "guarded"}) : e \in GuardedExprs(tier)}
+    (* the same guard as an if-equation *)
+    \cup {Item("expr", Prog(ExprComps, <<IfEq(<<Bin(">", Call("abs", <<d>>), ILit(0)), Blk(<<Eq(Ref("r"), Bin("/", Ref("u"), d))>>),
+                                                Blk(<<Eq(Ref("r"), Ref("c"))>>)>>)>>, <<>>, <<>>), {"num", "guarded"}) : d \in GuardDens}
 
 (* "elem": r = f(arg); the expected row is printed as (value of r, f, value of arg) *)
 ElemItems(tier) ==
@@ -229,13 +250,16 @@ FMix == Func("f", <<"a", "b">>, <<"r", "s">>, <<"t">>,
       IfSt(<<Bin(">", Rr, I(3)), Blk(<<Asg(Rs, Bin("-", Rr, I(1))), Asg(Rt, I(5))>>),
                                  Blk(<<Asg(Rs, Bin("+", Rt, Rr)), Asg(Rt, I(2))>>)>>),
       ForSt("i", I(1), I(3), <<Asg(Rr, Bin("+", Rr, Bin("*", Ri, Rt)))>>)>>)
+(* if-statement whose not-selected branch has no value (division by zero) *)
+FGuard == Func("f", <<"a", "b">>, <<"r">>, <<>>,
+    <<IfSt(<<Bin(">", Call("abs", <<Rb>>), I(0)), Blk(<<Asg(Rr, Bin("/", Ra, Rb))>>), Blk(<<Asg(Rr, Ra)>>)>>)>>)
 GOuter == Func("g", <<"a">>, <<"r">>, <<>>, <<Asg(Rr, Bin("+", Call("f", <<Ra, Bin("-", Ra, I(1))>>), I(1)))>>)
 
 FuncComps == << Real("x"), Real("y"), RealA("z", <<3>>), Param("p", RI(2)) >>
-FuncArgs(tier) == IF tier = "quick" THEN {<<Ref("p"), Ref("y")>>, <<Bin("+", Ref("y"), I(1)), Idx("z", <<I(3)>>)>>}
+FuncArgs(tier) == IF tier = "quick" THEN {<<Ref("p"), Ref("y")>>, <<Bin("+", Ref("y"), I(1)), Idx("z", <<I(3)>>)>>, <<Ref("x"), Bin("+", Ref("y"), I(1))>>}
                   ELSE {<<Ref("y"), Ref("p")>>, <<Ref("p"), Ref("y")>>, <<Bin("+", Ref("y"), I(1)), Ref("time")>>,
-                        <<Idx("z", <<I(2)>>), Idx("z", <<I(3)>>)>>, <<Lit(Q(1, 2)), Ref("y")>>}
-Single(tier) == {FStraight, FIf3, FFor(1, 3), FFor(2, 2), FFor(1, 0)} \cup {FIf(op) : op \in RelOps}
+                        <<Idx("z", <<I(2)>>), Idx("z", <<I(3)>>)>>, <<Lit(Q(1, 2)), Ref("y")>>, <<Ref("x"), Bin("+", Ref("y"), I(1))>>}
+Single(tier) == {FStraight, FIf3, FFor(1, 3), FFor(2, 2), FFor(1, 0), FGuard} \cup {FIf(op) : op \in RelOps}
 Multi(tier)  == {FIfDep, FFor2, FMulti, FMix}
 
 FuncItems(tier) ==
